@@ -505,3 +505,23 @@ Proof.
   - destruct (kalman_demobilize dbg cfg s (mk_clk rs [])) as [c' [[]|]]; cbn; [|reflexivity].
     destruct (kalman_new cfg) as [s'|]; cbn; [|reflexivity]. now rewrite IH.
 Qed.
+
+(** step_cmd, magnitude clause.  NOT proved in general (it needs an error analysis
+    of Duration::seconds / Duration::from_seconds); the oracle [step_ok] checks it on
+    every implementation trace, and the kernel evaluates it here on a boundary
+    lattice: thresholds from 2^-32 ns to 2^58 ns, offset estimates at and next to
+    the rounded threshold, on both sides.  A TEST, not a proof. *)
+Definition step_mag_check (thr : Z) (e : float) : bool :=
+  if fabs e <. dur_seconds thr then true
+  else match d_from_seconds true (-. e) with Ok d => step_ok thr d | Panic _ => true end.
+Definition step_mag_points (t : float) : list float :=
+  [t; PrimFloat.next_up t; PrimFloat.next_down t; PrimFloat.next_up (PrimFloat.next_up t);
+   t *. ftwo; t *. c_1e6; -. t; -. PrimFloat.next_up t; -. PrimFloat.next_down t; -. (t *. c_10)].
+Definition step_mag_thresholds : list Z :=
+  [1; 2; 3; 1000; FRAC - 1; FRAC; FRAC + 1; 999 * FRAC; 1000 * FRAC + 7; 4294967000000000;
+   1000000 * FRAC; 1000000 * FRAC + 1; NS_PER_S * FRAC - 1; NS_PER_S * FRAC; 100 * NS_PER_S * FRAC + 12345;
+   2 ^ 70 + 2 ^ 17 + 1; 2 ^ 90 - 1].
+Definition step_mag_grid : bool :=
+  forallb (fun thr => forallb (step_mag_check thr) (step_mag_points (dur_seconds thr))) step_mag_thresholds.
+Lemma step_mag_grid_holds : step_mag_grid = true.
+Proof. vm_compute. reflexivity. Qed.
